@@ -43,7 +43,8 @@ FromIsarDim(m, inMessage) ==
                                   IF inMessage THEN NM(m.nm, "ext", m.t, 0, m.nm \o "_len")
                                   ELSE NM(m.nm, "limext", m.t, m.n * m.aux, m.nm \o "_len") >>
       \* named and typed counter (u8)
-      [] m.dim = "varnamed" -> << NM("cnt_" \o m.nm, "plain", Int(1), 0, ""), NM(m.nm, "ext", m.t, 0, "cnt_" \o m.nm) >>
+      [] m.dim = "varnamed" -> << NM("cnt_" \o m.nm, "plain", Int(IF m.aux = 0 THEN 1 ELSE m.aux), 0, ""),
+                                  NM(m.nm, "ext", m.t, 0, "cnt_" \o m.nm) >>
       \* sized by an existing field: variableSizeFieldName="@f1"
       [] m.dim = "at"       -> << NM(m.nm, "ext", m.t, 0, "f1") >>
       \* size="THIS_IS_VARIABLE_SIZE_ARRAY": sized by the existing field numOf<Name>
@@ -106,7 +107,8 @@ fvars == <<ims, inMessage, script, result, outcome>>
 Forms(nm, t) ==
     {IM(nm, t, FALSE, "none", 0, 0), IM(nm, t, TRUE, "none", 0, 0), IM(nm, t, FALSE, "size", 3, 0),
      IM(nm, t, FALSE, "size2", 2, 2), IM(nm, t, FALSE, "var", 0, 0), IM(nm, t, FALSE, "varsize", 2, 0),
-     IM(nm, t, FALSE, "varnamed", 0, 0), IM(nm, t, FALSE, "varsize2", 3, 2),
+     IM(nm, t, FALSE, "varnamed", 0, 0), IM(nm, t, FALSE, "varnamed", 0, 2), IM(nm, t, FALSE, "varnamed", 0, 8),
+     IM(nm, t, FALSE, "varsize2", 3, 2),
      IM(nm, t, TRUE, "size", 2, 0), IM(nm, t, TRUE, "var", 0, 0)}
 
 \* arrays sized by an existing member (the first member is that integer)
